@@ -271,6 +271,14 @@ class Probe(FilterFunction):
         return self.impl(*args)
 
 
+def _builtin_bases():
+    from jsonpath_rfc9535 import function_extensions as fe
+    return {((N,), V): [fe.Count, fe.Value], ((V,), V): [fe.Length], ((V, V), L): [fe.Match, fe.Search]}
+
+
+_BUILTIN_BASES = _builtin_bases()
+
+
 def to_real(v, ret, root_nodes=None):
     """Convert an oracle-level function result to what a real function would return."""
     if ret == N:
@@ -280,7 +288,7 @@ def to_real(v, ret, root_nodes=None):
     return v
 
 
-def make_env(registry=None, base=JSONPathEnvironment, attrs=None, keep_builtins=True):
+def make_env(registry=None, base=JSONPathEnvironment, attrs=None, keep_builtins=True, bases=None):
     """A fresh environment subclass instance with the given probe registry.
 
     registry: name -> (params, ret, real_impl)
@@ -292,7 +300,16 @@ def make_env(registry=None, base=JSONPathEnvironment, attrs=None, keep_builtins=
         env.function_extensions.clear()
     probes = {}
     for name, (params, ret, impl) in (registry or {}).items():
-        p = Probe(name, params, ret, impl)
+        # user functions may well be written as subclasses of the standard function classes (overriding __call__): every
+        # second probe whose signature equals a standard function's is one
+        cands = _BUILTIN_BASES.get((tuple(params), ret), [])
+        if bases and name in bases:
+            p = type("Probe_%s" % bases[name].__name__, (Probe, bases[name]), {})(name, params, ret, impl)
+        elif cands and sum(map(ord, name)) % 2 == 0:
+            b_ = cands[(sum(map(ord, name)) // 2) % len(cands)]
+            p = type("Probe_%s" % b_.__name__, (Probe, b_), {})(name, params, ret, impl)
+        else:
+            p = Probe(name, params, ret, impl)
         env.function_extensions[name] = p
         probes[name] = p
     return env, probes
